@@ -199,15 +199,20 @@ def case_dimraise(case):
     r = R()
     cls, d0, d1, nu = case["cls"], case["d0"], case["d1"], case["nu"]
     extra = {"cls": cls, "d0": d0, "d1": d1, "nu": nu}
-    m = getattr(gs, cls)(dim=d0, len_scale=1.0, nu=nu)
+    m = getattr(gs, cls)(dim=d0, len_scale=1.0, **({} if nu is None else {"nu": nu}))
     m.cor(np.array([0.3]))
+    m.covariance(np.array([0.0, 0.4, 0.9])), m.variogram(np.array([0.2]))
     try:
         m.dim = d1
     except ValueError:
         r.eq("refused dimension change leaves the dimension unchanged", int(m.dim), d0, **extra)
         return r.done(outcome=[cls, d0, d1, "refused"])
-    lo = {"JBessel": d1 / 2 - 1, "SuperSpherical": (d1 - 1) / 2, "TPLSimple": (d1 + 1) / 2}[cls]
-    r.true("accepted dimension change => shape parameter inside the documented bounds of the new dimension", float(m.nu) >= lo - 1e-12, info={"nu": float(m.nu), "lower bound": lo}, **extra)
+    if nu is not None:
+        lo = {"JBessel": d1 / 2 - 1, "SuperSpherical": (d1 - 1) / 2, "TPLSimple": (d1 + 1) / 2}[cls]
+        r.true("accepted dimension change => shape parameter inside the documented bounds of the new dimension", float(m.nu) >= lo - 1e-12, info={"nu": float(m.nu), "lower bound": lo}, **extra)
+    fresh = getattr(gs, cls)(dim=d1, len_scale=1.0, **({} if nu is None else {"nu": float(m.nu)}))
+    hh = np.array([0.0, 0.1, 0.45, 0.8, 0.999, 1.0, 1.3])
+    r.close("accepted dimension change => correlation of the model built in the new dimension", m.correlation(hh), fresh.correlation(hh), rtol=1e-12, atol=1e-14, **extra)
     for ls in (0.5, 1.0, 2.0):
         m.len_scale = ls
         pos = lattice(d1, {1: 12, 2: 6, 3: 5, 4: 3}[d1], 0.5)
@@ -288,6 +293,8 @@ def run(chk):
             for nu in sorted({lo(d0), lo(d0) + 0.1, lo(d1), lo(d1) - 0.1, 5.0}):
                 if nu >= lo(d0) and (cls != "JBessel" or nu > -0.5 + 1e-9 or d0 == 1):
                     dr.append({"cls": cls, "d0": d0, "d1": d1, "nu": float(nu)})
+    for d0, d1 in itertools.permutations((1, 2, 3, 4), 2):
+        dr.append({"cls": "HyperSpherical", "d0": d0, "d1": d1, "nu": None})  # shape follows the dimension
     chk.run("dimraise", case_dimraise, dr, rule="classes with dimension dependent bounds (JBessel, SuperSpherical, TPLSimple) x every ordered pair of dimensions 1-4 x shape parameter at / just above / just below the bounds of both dimensions: the model is built and used in the first dimension, dim is assigned in place; the change is refused or the model is valid in the new dimension (documented bound and eigenvalues)", chunk=8, min_outcomes=2)
     rj = []
     for d in (1, 2, 3):
